@@ -325,24 +325,34 @@ func Families(tier string) []*core.Family {
 	if !thorough {
 		add("nest-d1", 1, 2, declRange(1, 0, 3, mainKinds, nil), 40)
 		add("nest-d2-k01", 2, 2, declRange(2, 0, 1, mainKinds, nil), 40)
-		add("nest-d2-k2", 2, 1, declRange(2, 2, 2, handlers, nil), 120)
+		add("nest-d2-k2", 2, 2, declRange(2, 2, 2, mainKinds, nil), 150)
+		add("nest-d2-k3log", 2, 1, declRange(2, 3, 3, []gen.DKind{gen.HLog}, nil), 30)
 		add("values-d1", 1, 1, declRange(1, 1, 2, withLog, exactlyOneOf(valueKinds)), 30)
 	} else {
-		add("nest-d1", 1, 2, declRange(1, 0, 3, mainKinds, nil), 60)
-		add("nest-d2-k01", 2, 2, declRange(2, 0, 1, mainKinds, nil), 60)
-		add("nest-d2-k2", 2, 2, declRange(2, 2, 2, mainKinds, nil), 240)
-		add("nest-d2-k3", 2, 1, declRange(2, 3, 3, handlers, nil), 400)
-		add("nest-d3-k01", 3, 2, declRange(3, 0, 1, mainKinds, nil), 240)
-		add("nest-d3-k2", 3, 1, declRange(3, 2, 2, mainKinds, atMostOneSpecial), 400)
-		add("nest-d3-k3log", 3, 1, declRange(3, 3, 3, []gen.DKind{gen.HLog}, nil), 300)
+		add("nest-d1", 1, 2, declRange(1, 0, 3, mainKinds, nil), 30)
+		add("nest-d2-k01", 2, 2, declRange(2, 0, 1, mainKinds, nil), 30)
+		add("nest-d2-k2", 2, 2, declRange(2, 2, 2, mainKinds, nil), 90)
+		add("nest-d2-k3", 2, 1, declRange(2, 3, 3, handlers, nil), 200)
+		add("nest-d3-k01", 3, 2, declRange(3, 0, 1, mainKinds, nil), 160)
+		add("nest-d3-k2", 3, 1, declRange(3, 2, 2, handlers, atMostOneSpecial), 360)
+		add("nest-d3-k3log", 3, 1, declRange(3, 3, 3, []gen.DKind{gen.HLog}, nil), 200)
 		add("values-d1", 1, 1, declRange(1, 1, 2, withLog, exactlyOneOf(valueKinds)), 30)
-		add("values-d2", 2, 1, declRange(2, 1, 2, withLog, exactlyOneOf(valueKinds)), 120)
+		add("values-d2", 2, 1, declRange(2, 1, 2, withLog, exactlyOneOf(valueKinds)), 80)
 	}
 	// the main chunk called WITHOUT a context (plain rt.Call)
 	uf := &nestFam{name: "unprotected-host-call", nests: gen.Nestings(1, []gen.Kind{gen.KChunk}), exits: gen.Exits(1, 1),
 		decls: declRange(1, 0, 2, handlers, nil)}
 	fams = append(fams, uf.family(30, false))
-	fams = append(fams, genforFamily(thorough))
+	var chunkNests [][]gen.Kind
+	for _, n := range gen.Nestings(2, allKinds) {
+		if n[0] == gen.KChunk {
+			chunkNests = append(chunkNests, n)
+		}
+	}
+	uf2 := &nestFam{name: "unprotected-host-call-d2", nests: chunkNests, exits: gen.Exits(2, 1),
+		decls: declRange(2, 1, 2, []gen.DKind{gen.HLog, gen.HRaise}, nil)}
+	fams = append(fams, uf2.family(30, false))
+	fams = append(fams, genforFamily(thorough), xpcallFamily(thorough))
 	return fams
 }
 
@@ -350,19 +360,49 @@ func Families(tier string) []*core.Family {
 // variable (§3.3.5): nestings that contain a generic-for level, crossed with
 // the kind of its closing value, declarations in the bodies, and every exit.
 func genforFamily(thorough bool) *core.Family {
-	kinds := append(append([]gen.Kind{}, allKinds...), gen.KGenFor)
+	gfKinds := []gen.DKind{gen.HLog, gen.HRaise, gen.HRaiseT, gen.HYield, gen.VFalse, gen.VNil, gen.VNoMeta}
+	dk := []gen.DKind{gen.HLog, gen.HRaise}
+	if thorough {
+		dk = handlers
+	}
+	return extraKindFamily("genfor", gen.KGenFor, gfKinds, dk, thorough)
+}
+
+// xpcallFamily: nestings that contain an xpcall level (the message handler
+// logs the error and passes it on): the handler runs at the point of the
+// error, before any variable is closed.  (Errors raised by __close handlers
+// under xpcall are left to C11: the reference reports them Unspec.)
+func xpcallFamily(thorough bool) *core.Family {
+	dk := []gen.DKind{gen.HLog, gen.HYield}
+	if thorough {
+		dk = handlers
+	}
+	return extraKindFamily("xpcall", gen.KXpcall, []gen.DKind{gen.HLog}, dk, thorough)
+}
+
+// extraKindFamily enumerates the valid programs over nestings of depth <= 2
+// that contain a level of kind extra.
+func extraKindFamily(name string, extra gen.Kind, gfKinds, dk []gen.DKind, thorough bool) *core.Family {
+	kinds := append(append([]gen.Kind{}, allKinds...), extra)
 	var nests [][]gen.Kind
 	for d := 1; d <= 2; d++ {
 		for _, n := range gen.Nestings(d, kinds) {
+			has, bad := false, false
 			for _, k := range n {
-				if k == gen.KGenFor {
-					nests = append(nests, n)
-					break
+				if k == extra {
+					has = true
+				} else if has && extra == gen.KXpcall && k.IsCo() {
+					// a coroutine inside the xpcall: whether (and when) the message
+					// handler sees an error raised in another coroutine is C11's
+					// question, not decided here
+					bad = true
 				}
+			}
+			if has && !bad {
+				nests = append(nests, n)
 			}
 		}
 	}
-	gfKinds := []gen.DKind{gen.HLog, gen.HRaise, gen.HRaiseT, gen.HYield, gen.VFalse, gen.VNil, gen.VNoMeta}
 	type cfg struct {
 		nest  []gen.Kind
 		gf    gen.DKind
@@ -371,10 +411,8 @@ func genforFamily(thorough bool) *core.Family {
 	}
 	var cfgs []cfg
 	kmax, maxW := 1, 1
-	dk := []gen.DKind{gen.HLog, gen.HRaise}
 	if thorough {
 		kmax, maxW = 2, 2
-		dk = handlers
 	}
 	for k := 0; k <= kmax; k++ {
 		for _, n := range nests {
@@ -400,11 +438,11 @@ func genforFamily(thorough bool) *core.Family {
 		budget = 300
 	}
 	return &core.Family{
-		Name: "genfor",
+		Name: name,
 		Size: uint64(len(cfgs)),
 		Run: func(i uint64) core.Outcome {
 			s := at(i)
-			return runCase("genfor", s.Key(), s.Lua(), true)
+			return runCase(name, s.Key(), s.Lua(), true)
 		},
 		Show:          func(i uint64) string { s := at(i); return s.Key() + "\n" + s.Lua() },
 		BudgetSeconds: budget,
